@@ -19,6 +19,9 @@ func init() {
 }
 
 func runC10(p *Prog, r *Report) {
+	if want("C10.12") {
+		ruleWriteOptionsForwarded(p, r, "C10.12")
+	}
 	if want("C10.11") {
 		ruleOptGetters(p, r, "C10.11", "the merge switch", "WriteOptions.GetNoWriteMerge", "Options.GetNoWriteMerge")
 	}
